@@ -74,6 +74,9 @@ type Controller struct {
 	UAC []string
 	// Closes counts Close calls per handle.
 	Closes map[int]int
+	// ClosePanicked: handles whose Close was made to panic (such a Close never finished; the
+	// server may legitimately try again)
+	ClosePanicked map[int]bool
 	nextID int64
 }
 
@@ -356,6 +359,12 @@ func (f *File) Close() error {
 		// handle are not held against the server as use after close.
 		if p := recover(); p != nil {
 			atomic.StoreInt32(&f.closed, 0)
+			f.C.mu.Lock()
+			if f.C.ClosePanicked == nil {
+				f.C.ClosePanicked = map[int]bool{}
+			}
+			f.C.ClosePanicked[f.ID] = true
+			f.C.mu.Unlock()
 			panic(p)
 		}
 	}()
